@@ -510,6 +510,9 @@ class FnA:
                 return ("const", k["def"])
             if "v" in k:
                 return ("lit", k["v"])
+            if "static" in k:
+                # the address of a `static` item (a read of it is a deref of this constant)
+                return ("const", k["static"])
             return ("litrepr", k.get("repr", k["ty"]))
         p = op_place(o)
         if p is None:
